@@ -117,9 +117,12 @@ impl Ker {
 }
 
 fn make_kernel(rng: &mut Rng, which: usize) -> Result<Ker, String> {
-    let var = rng.log_range(1e-2, 1e2);
-    let l = rng.log_range(1e-2, 1e2);
-    let a = rng.log_range(1e-2, 1e2);
+    // log-uniform, but one time in four a "round" value that an implementation might special-case
+    let special = [0.5, 1.0, 2.0, 0.25, 1.5, 3.0, 10.0, 0.1];
+    let pick = |rng: &mut Rng| if rng.chance(0.25) { *rng.choose(&special) } else { rng.log_range(1e-2, 1e2) };
+    let var = pick(rng);
+    let l = pick(rng);
+    let a = pick(rng);
     if which == 0 {
         guard(|| RBFKernel::new(var, l)).map(|k| Ker::Rbf(k, var, l))
     } else {
